@@ -3,7 +3,7 @@
 #  demo fails with the change, passes without it, the touched packages' existing tests pass with the change.
 wt=$1
 cd $wt || exit 2
-export GOFLAGS=-mod=mod GOPROXY=off
+export GOFLAGS=-mod=mod GOPROXY=off; unset GOTOOLCHAIN GOSUMDB
 demos=$(git ls-files --others --exclude-standard | grep '_test.go$')
 [ -z "$demos" ] && { echo "no demo test"; exit 2; }
 out=""
